@@ -20,7 +20,7 @@ var placeholderAttrs = map[string]bool{"class": true, "data-type": true, "data-i
 
 // C05: distilled HTML is inert.
 func C05(p *core.Program, r *core.Report) {
-	r.Explanation = "S1 (strip before serialise, sibling agreement over all Element.GenerateOutput implementations): every returned string that comes from dom.OuterHTML/dom.InnerHTML serialises a tree that, as the very same SSA value, was handed to StripAttributes on every path and is not extended afterwards - or is the result of a helper that strips everything it returns, or a field only ever written with such results, or a wrapper created by the distiller whose children are all stripped and whose own attributes are the placeholder markers class/data-type/data-id. Strings not produced by the DOM serializer may only be tag placeholders built from the tag name. S2: the attribute allow-list contains no event handler (on*), StripAttributes drops id/class/style explicitly and visits the root and all descendants. S3: every wholesale copy of source nodes goes through GetOutputNodes, whose visitor drops script/style (by tag) and invisible descendants; the converter's switch drops script/style. S4 (serialise/parse round trip): the element names whose text x/net/html writes unescaped are read from render.go of the version the module builds with; before the converter walks its clone, a pass over that clone must visit the elements of every such name and take each one that has an svg/math ancestor out of the tree (inside foreign content they are ordinary elements whose text is page-controlled markup once Apply parses the output again; every clone has lost the namespace). S1 also: a tree that counts as processed because a processing helper returned it gets no attribute set and nothing attached afterwards in the same function."
+	r.Explanation = "S1 (strip before serialise, sibling agreement over all Element.GenerateOutput implementations): every returned string that comes from dom.OuterHTML/dom.InnerHTML serialises a tree that, as the very same SSA value, was handed to StripAttributes on every path and is not extended afterwards - or is the result of a helper that strips everything it returns, or a field only ever written with such results, or a wrapper created by the distiller whose children are all stripped and whose own attributes are the placeholder markers class/data-type/data-id. Strings not produced by the DOM serializer may only be tag placeholders built from the tag name. S2: the attribute allow-list contains no event handler (on*), StripAttributes drops id/class/style explicitly and visits the root and all descendants. S3: every wholesale copy of source nodes goes through GetOutputNodes, whose visitor drops script/style (by tag) and invisible descendants; the converter's switch drops script/style. S4 (serialise/parse round trip): the element names whose text x/net/html writes unescaped are read from render.go of the version the module builds with; before the converter walks its clone, a pass over that clone must visit the elements of every such name and take each one that has an svg/math ancestor out of the tree (inside foreign content they are ordinary elements whose text is page-controlled markup once Apply parses the output again; every clone has lost the namespace). S1 also: a tree that counts as processed because a processing helper returned it gets no attribute set and nothing attached afterwards in the same function. S5: no parser of the module runs with scripting disabled (html.ParseOptionEnableScripting only with the constant true): the content of a copied <noscript> stays one text node when the output is read back."
 	r.NotCovered = "the HTML serializer of x/net/html (escaping), attribute VALUES (e.g. javascript: URLs in href are left as they are, see C06), correctness of the allow-list against browsers."
 
 	strippers := nodeProcessors(p, stripKey)
